@@ -75,7 +75,19 @@ FUNC_KINDS = ("func", "type")
 ZERO = {"i0", "b0", "f0", "fm0"}
 # builtins that emit a list in the iteration order of an internal hash map (DESIGN Appendix A)
 HASH_ORDER = {"group_all"}
-BIDX = {n: i for i, n in enumerate(pool.NAMES)}
+# larger collections than the shared pool holds (size-dependent fast paths: small-to-large merges, preallocated
+# tables); local to this check.  Their sources build a fresh, uniquely owned value every time they are evaluated.
+EXTRA = [("xdA", "dict((0 til 70) map (\\i -> [i, i]))", "dict", ""),
+         ("xdB", "dict((35 til 105) map (\\i -> [i, 0 - i]))", "dict", ""),
+         ("xd33", "dict((0 til 33) map (\\i -> [i, [i]]))", "dict", ""),
+         ("xd3", "{1: \"one\", 40: \"forty\", 200: \"x\"}", "dict", ""),
+         ("xlA", "list(0 til 70)", "list", ""),
+         ("xlB", "list(35 til 105)", "list", "")]
+EXTRA_NAMES = [e[0] for e in EXTRA]
+BYN = dict(pool.BY_NAME)
+BYN.update({e[0]: e for e in EXTRA})
+ALLNAMES = pool.NAMES + EXTRA_NAMES
+BIDX = {n: i for i, n in enumerate(ALLNAMES)}
 SMALL_NUMS = [p[0] for p in pool.POOL if p[2] in ("int", "rational", "float", "complex") and "huge" not in p[3]]
 
 # ---------------------------------------------------------------- callables
@@ -141,7 +153,7 @@ USER_CALLABLES = [
     ("memoize-warm(closure3)", "mm", "mm := memf(u3); try mm({a}, {b}, {c}) catch _ -> 0; ", (3,)),
     ("memoize-warm(-)", "mm", "mm := memf(-); try mm({a}, {b}) catch _ -> 0; ", (2,)),
 ]
-PRELUDE = pool.PRELUDE + USER_PRELUDE
+PRELUDE = pool.PRELUDE + ["%s := %s" % (e[0], e[1]) for e in EXTRA] + USER_PRELUDE
 
 
 def is_word(tok):
@@ -206,12 +218,18 @@ def forms_for(c, args, isfn):
     out = [(n, c.render(t, args)) for n, t in FORMS[ar]]
     # the same forms with the arguments written inline (fresh, uniquely owned temporaries instead of
     # values held by a variable): copy-on-write fast paths must not change the result
-    if any(pool.BY_NAME[a][2] in INLINE_KINDS for a in args) and not any(pool.BY_NAME[a][2] in NO_INLINE_KINDS for a in args):
-        inl = ["(%s)" % pool.BY_NAME[a][1] for a in args]
+    if any(BYN[a][2] in INLINE_KINDS + NO_INLINE_KINDS for a in args):
+        inl = ["(%s)" % BYN[a][1] for a in args]
         for n, t in FORMS[ar][:INLINE_FORMS[ar]]:
             out.append(("inline " + n, c.render(t, inl)))
+        if ar == 2:
+            # one operand held by a variable (shared), the other a fresh temporary: the combination that
+            # move-instead-of-copy fast paths distinguish
+            for n, t in FORMS[2][:INLINE_FORMS[2]]:
+                out.append(("inline R " + n, c.render(t, [args[0], inl[1]])))
+                out.append(("inline L " + n, c.render(t, [inl[0], args[1]])))
     if ar == 2:
-        if pool.BY_NAME[args[0]][2] not in FUNC_KINDS:
+        if BYN[args[0]][2] not in FUNC_KINDS:
             out.append((F_LSEC[0], c.render(F_LSEC[1], args)))
         if isfn.get(args[1]):
             out.append((F_RSEC[0], c.render(F_RSEC[1], args)))
@@ -282,6 +300,16 @@ def _multiset(c):
         if "inst" in c:
             return {"inst": {"struct": c["inst"]["struct"], "fields": [_multiset(x) for x in c["inst"]["fields"]]}}
     return c
+
+
+def _has_fn(c):
+    if isinstance(c, list):
+        return any(_has_fn(x) for x in c)
+    if isinstance(c, dict):
+        if "fn" in c:
+            return True
+        return any(_has_fn(x) for x in c.values() if isinstance(x, (list, dict)))
+    return False
 
 
 def _has_dict(c):
@@ -357,13 +385,18 @@ def judge(c, args, forms, evs):
     def dicty():
         # is hash iteration order involved?  (only consulted when two values differ)
         if not memo:
-            memo.append(c.tok in HASH_ORDER or any(pool.BY_NAME[a][2] == "dict" for a in args)
+            memo.append(c.tok in HASH_ORDER or any(BYN[a][2] == "dict" for a in args)
                         or any(_has_dict(e.get("v")) for e in evs if e.get("o") == "ok"))
         return memo[0]
     base_s, base_e = byname[BASE[ar]]
     vd.ok_base = base_e.get("o") == "ok"
     sym = [n for n, _ in FORMS[ar]]
-    sym += [n for n, _ in forms if n.startswith("inline ")]
+    # a second dict INSTANCE has its own random iteration order, which shows in everything derived from iterating it
+    # (Display text, first/last/take, folds): with a dict argument the inline spellings are only compared when
+    # every returned value is itself a dict / set (compared as a multiset of entries) containing no function
+    if not any(BYN[a][2] in NO_INLINE_KINDS for a in args) or all(
+            isinstance(e.get("v"), dict) and "d" in e["v"] and not _has_fn(e["v"]) for e in evs if e.get("o") == "ok"):
+        sym += [n for n, _ in forms if n.startswith("inline ")]
     if ar == 2 and F_LSEC[0] in byname:
         sym.append(F_LSEC[0])
     groups = []     # [[rep_event, [names]]]
@@ -448,7 +481,7 @@ def is_inf(c, args):
 
 
 def is_huge(args):
-    return any("huge" in pool.BY_NAME[a][3] for a in args)
+    return any("huge" in BYN[a][3] for a in args)
 
 
 def record_bad(sh, c, args, why, case):
@@ -477,7 +510,7 @@ def case_text(c, args):
 
 
 def describe(c, args):
-    return "%s with %s" % (c.key, ", ".join("%s=%s" % (x, pool.BY_NAME[a][1]) for x, a in zip("abc", args)))
+    return "%s with %s" % (c.key, ", ".join("%s=%s" % (x, BYN[a][1]) for x, a in zip("abc", args)))
 
 
 def report(sh, c, args, vd):
@@ -609,7 +642,7 @@ def finish(sh, c, t, fs, vd):
     else:
         sh.count("disagree")
     if vd.status == "held" and vd.ok_base and len(sh.samples) < 4 and len(t) >= 2 and not any(a in ("i0", "i1") for a in t):
-        sh.sample({"callable": c.key, "args": {a: pool.BY_NAME[a][1] for a in t}, "forms": [s for _, s in fs],
+        sh.sample({"callable": c.key, "args": {a: BYN[a][1] for a in t}, "forms": [s for _, s in fs],
                    "verdict": "all %d forms returned the same canonical value" % len(fs)}, cap=4)
     if vd.fallback:
         sh.count("order-insensitive-match")
@@ -640,6 +673,13 @@ def tuples_for(ctx, c):
                 if t not in seen:
                     seen.add(t)
                     pairs.append(t)
+    if 2 in c.arities:
+        ex = EXTRA_NAMES if ctx.plan["pairs"] == "all" else ["xdA", "xdB", "xd33", "xlA"]
+        pairs += [(a, b) for a in ex for b in ex]
+        for a in ex:
+            for b in ("d1", "xd3", "l3", "i1"):
+                pairs += [(a, b), (b, a)]
+        pairs = list(dict.fromkeys(pairs))
     if 3 in c.arities:
         # candidates: 4x the wanted number, a third each from the reduced pool, the whole pool and the small
         # numbers; process(keep_raising=...) keeps every candidate whose plain call returns and a bounded
@@ -671,7 +711,7 @@ def shard(ctx, si, n):
         callables = [Callable(x, x) for x in names if x not in EXCLUDED]
         callables += [Callable(k, tok, setup, ar) for (k, tok, setup, ar) in USER_CALLABLES]
         units = [(ci, k) for ci in range(len(callables)) for k in range(K)]
-        P = pool.NAMES
+        P = ALLNAMES
         # the prelude (pool + user-defined callables) must build without error, otherwise every form would
         # "agree" by raising a name error
         chk = w.run({"id": "pre", "kind": "eval", "prelude": PRELUDE, "stmts": ["[u1, u2, u3, memf, fanb, Foo]"],
